@@ -181,6 +181,7 @@ func graphEnumCase(idx uint64) GraphCase {
 		mask := idx / uint64(len(reqs))
 		req := reqs[idx%uint64(len(reqs))]
 		c := GraphCase{N: n, Request: req, Reps: 3}
+		c.Reuse = variant == 0 && mask%2 == 1 // half of the plain cases run one loaded SpokFile three times
 		switch variant {
 		case 1:
 			for i := 0; i < n; i++ {
@@ -233,9 +234,22 @@ func TestGraphEnum(t *testing.T) {
 
 func genGraph(t *rapid.T) GraphCase {
 	n := rapid.IntRange(4, 8).Draw(t, "n")
+	if rapid.IntRange(0, 5).Draw(t, "large") == 0 {
+		n = rapid.IntRange(21, 36).Draw(t, "n_large") // enough tasks for sorts and maps to leave their small-input paths
+	}
 	c := GraphCase{N: n, Reps: 3}
+	c.Reuse = rapid.IntRange(0, 2).Draw(t, "reuse") == 0
 	// density chosen so that roughly half of the graphs are acyclic
 	acyclicOnly := rapid.Bool().Draw(t, "acyclic_only")
+	if n > 8 {
+		// large graphs: acyclic, with a chain through all tasks so that the closure of task 0 is everything
+		acyclicOnly = true
+		for i := 0; i+1 < n; i++ {
+			if rapid.IntRange(0, 3).Draw(t, "chain") != 0 {
+				c.Edges = append(c.Edges, [2]int{i, i + 1})
+			}
+		}
+	}
 	p := rapid.IntRange(1, 4).Draw(t, "density")
 	for i := 0; i < n; i++ {
 		for j := 0; j < n; j++ {
@@ -269,6 +283,9 @@ func genGraph(t *rapid.T) GraphCase {
 	perm := rapid.Permutation(graphNames[:n]).Draw(t, "order")
 	k := rapid.IntRange(1, 3).Draw(t, "nreq")
 	c.Request = append([]string(nil), perm[:k]...)
+	if n > 8 {
+		c.Request = append([]string{graphNames[0]}, c.Request...)
+	}
 	if rapid.IntRange(0, 19).Draw(t, "requndef") == 0 {
 		c.Request = append(c.Request, undefinedName)
 	}
@@ -346,7 +363,7 @@ func TestGlobEnum(t *testing.T) {
 func TestGlobLinks(t *testing.T) {
 	s := ev.Open(t, "C05")
 	root := filepath.Join(workRoot(t), "proj")
-	bases := [][]string{nil, {"a.x", "src/a.x", ".env", "src/.h.x"}, globPool[:globPoolSize()]}
+	bases := [][]string{nil, {"a.x", "src/a.x", ".env", "src/.h.x"}, globPool[:globPoolSize()], {"a.spok.x", "docs/plan.spok.x", "src/a.x", "z.x"}}
 	seen := map[string]bool{}
 	var idx uint64
 	for mask := 1; mask < 1<<len(linkPool); mask++ {
@@ -385,7 +402,7 @@ func TestGlobLinks(t *testing.T) {
 }
 
 var segNames = []string{"a", "b", "src", "sub", ".h", ".d", "-x", "z", "lib", "Z"}
-var fileNames = []string{"a.x", "b.x", ".h.x", "c.y", "-f.x", "z.x", "m", ".env", "a.x.bak", "[d]raft.x", "q*r.x", "dx.x"}
+var fileNames = []string{"a.x", "b.x", ".h.x", "c.y", "-f.x", "z.x", "m", ".env", "a.x.bak", "[d]raft.x", "q*r.x", "dx.x", "a.spok.x", "ci.spokfile.x"}
 
 func genGlobCase(t *rapid.T) GlobCase {
 	c := GlobCase{Patterns: globPatterns}
